@@ -509,6 +509,27 @@ func (h *NtfnsHandler) filterTx(dbtx mwdb.ReadTransaction, tx *wire.MsgTx, block
 				if _, ok := readyWallets[ma.Account()]; !ok {
 					continue
 				}
+				if blockMeta == nil {
+					// The coin belongs to a ready wallet, so the wallet has
+					// recorded the transaction that creates it - unless that
+					// one sits in a block still waiting in the queue (the
+					// handler may be one block behind here). If that block is
+					// reorganised away before it is handled, nothing would
+					// ever remove this spender from the pending set: only
+					// accept spends of coins the wallet knows.
+					known, err := h.knowsCreditFromTx(&txIn.PreviousOutPoint.Hash)
+					if err != nil {
+						return false, nil, err
+					}
+					if !known {
+						logging.CPrint(logging.WARN, "unmined tx spends a wallet coin not recorded yet",
+							logging.LogFormat{
+								"tx":        rec.Hash.String(),
+								"txInIndex": i,
+							})
+						return false, nil, ErrInvalidTx
+					}
+				}
 				rec.HasBindingIn = ps.IsBinding()
 				rec.RelevantTxIn = append(rec.RelevantTxIn,
 					&txmgr.RelevantMeta{
@@ -575,6 +596,24 @@ func (h *NtfnsHandler) filterTx(dbtx mwdb.ReadTransaction, tx *wire.MsgTx, block
 	}
 
 	return true, rec, nil
+}
+
+// knowsCreditFromTx reports whether the wallet store holds a confirmed or a
+// pending record of the transaction with the given hash.
+func (h *NtfnsHandler) knowsCreditFromTx(hash *wire.Hash) (bool, error) {
+	exist := false
+	err := mwdb.View(h.walletMgr.db, func(rtx mwdb.ReadTransaction) (err error) {
+		exist, err = h.walletMgr.utxoStore.ExistCreditFromTx(rtx, hash)
+		return err
+	})
+	if err != nil || exist {
+		return exist, err
+	}
+	mtx, err := h.walletMgr.existsUnminedTx(hash)
+	if err != nil && err != txmgr.ErrNotFound {
+		return false, err
+	}
+	return mtx != nil, nil
 }
 
 func (h *NtfnsHandler) filterBlock(dbtx mwdb.DBTransaction, readyWallets map[string]struct{},
